@@ -962,7 +962,7 @@ func main() {
 	}
 
 	// ---- seeded random: 3-4 appenders, 1-3 series, 1-4 samples, random merge order
-	n := f.Count(40, 1500)
+	n := f.Count(40, 1000)
 	for i := 0; i < n; i++ {
 		r := gen.Fork(f.Seed, i)
 		na := 3 + r.Intn(2)
